@@ -68,10 +68,10 @@ Min(S) == CHOOSE x \in S : \A y \in S : x <= y
 \* the orchestrator turns these lines into KNOWN-FINDING (or VIOLATION if unlisted)
 Deviation(name) == PrintT(<<"TRACE_DEVIATION", name, l>>)
 
-NoCur == [st |-> "none", target |-> "", env |-> [id |-> ""], q0 |-> 0]
+NoCur == [st |-> "none", target |-> "", env |-> [id |-> ""], q0 |-> 0, race |-> FALSE, dconn |-> 0]
 NewConn(name, hn, st) ==
   [name |-> name, hn |-> hn, st |-> st, in |-> <<>>, out |-> <<>>, stuck |-> FALSE, rfail |-> FALSE,
-   wfail |-> FALSE, wdet |-> FALSE, derr |-> FALSE, must |-> FALSE, rep |-> 0]
+   wfail |-> FALSE, wdet |-> FALSE, derr |-> FALSE, must |-> FALSE, rep |-> 0, att |-> "", prev |-> 0]
 
 Init == /\ pc = [fam |-> "", mode |-> "env", px |-> "px", ic |-> [kind |-> "nil", from |-> "", to |-> ""]]
         /\ phase = "end" /\ cs = <<>> /\ reg = <<>> /\ cur = NoCur /\ cancelled = FALSE /\ dropped = {}
@@ -97,9 +97,19 @@ Failed(c) == c.rfail \/ c.wdet \/ c.derr
 
 TAttach ==   \* Proxy.AddClient(name, conn): replaces whatever is registered under the name
   /\ Run("Attach") /\ ~Has(E.n)
-  /\ cs' = Append(cs, NewConn(E.k, E.n, "live"))
+  \* (att / prev: an AddClient running in a goroutine of its own is logged before it takes the table's lock; until its
+  \* AttachRet, events of the registration it replaces may still follow)
+  /\ cs' = Append(cs, [NewConn(E.k, E.n, "live") EXCEPT !.att = IF E.res = "async" THEN "ing" ELSE "",
+                                                      !.prev = IF E.k \in DOMAIN reg THEN reg[E.k] ELSE 0])
   /\ reg' = Put(reg, E.k, Len(cs) + 1)
-  /\ UNCHANGED <<pc, phase, cur, cancelled, dropped, avars>>
+  \* AddClient of another goroutine overlapping the routing of an envelope for that very name: the dispatcher's
+  \* lookup may have happened before or after the registration (cur.race)
+  /\ cur' = IF cur.st = "route" /\ cur.target = E.k THEN [cur EXCEPT !.race = TRUE] ELSE cur
+  /\ UNCHANGED <<pc, phase, cancelled, dropped, avars>>
+\* AddClient has returned: from now on every envelope ACCEPTED for the name goes to this connection
+TAttachRet == /\ Run("AttachRet") /\ Has(E.n)
+              /\ cs' = [cs EXCEPT ![Idx(E.n)].att = ""]
+              /\ UNCHANGED <<pc, phase, reg, cur, cancelled, dropped, avars>>
 
 EnvOf(i) == [id |-> E.env.id, h |-> (E.env.h = 1), src |-> E.env.src, dst |-> E.env.dst,
              rec |-> MdV("rec"), nxt |-> MdV("nxt"), tok |-> E.x, sc |-> i, late |-> cancelled]
@@ -125,9 +135,9 @@ TAccept ==
        /\ cs' = [cs EXCEPT ![i].in = Tail(@)]
        \* q0: what is queued for the target now.  serveClients is the only enqueuer, so the
        \* queue it finds at its enqueue attempt is a suffix of this one.
-       /\ cur' = IF ok THEN [st |-> "route", target |-> Target(pc.ic, e), env |-> Forwarded(pc.px, pc.ic, e),
+       /\ cur' = IF ok THEN [st |-> "route", target |-> Target(pc.ic, e), env |-> Forwarded(pc.px, pc.ic, e), race |-> FALSE, dconn |-> 0,
                               q0 |-> IF Target(pc.ic, e) \in DOMAIN reg THEN Len(cs[reg[Target(pc.ic, e)]].out) ELSE 0]
-                       ELSE [st |-> "quiet", target |-> "", env |-> e, q0 |-> 0]
+                       ELSE [st |-> "quiet", target |-> "", env |-> e, q0 |-> 0, race |-> FALSE, dconn |-> 0]
   /\ UNCHANGED <<pc, phase, reg, cancelled, dropped, avars>>
 
 \* proxy.route(id, qlen, destination): enqueued for the registered connection of
@@ -143,6 +153,17 @@ TRoute ==
        /\ E.n <= Cap     \* (the logged length is read after the send: only its bound is meaningful)
   /\ cur' = [cur EXCEPT !.st = "done"]
   /\ UNCHANGED <<pc, phase, cancelled, dropped, avars>>
+
+\* The envelope's lookup missed just before an overlapping AddClient registered the name: it is queued for a
+\* connection dialled on demand, which the attached connection has replaced in the table already
+TRouteRace ==
+  /\ Run("Hk") /\ E.k = "proxy.route"
+  /\ cur.st = "route" /\ E.msg = cur.env.id /\ E.x = cur.target /\ E.n <= Cap
+  /\ cur.race /\ cur.target \in DOMAIN reg
+  /\ cs' = IF cur.dconn # 0 THEN [cs EXCEPT ![cur.dconn].out = Append(@, cur.env)]     \* (its dial was logged first)
+           ELSE Append(cs, [NewConn(cur.target, 0, "dialing") EXCEPT !.out = <<cur.env>>])
+  /\ cur' = [cur EXCEPT !.st = "done"]
+  /\ UNCHANGED <<pc, phase, reg, cancelled, dropped, avars>>
 
 \* DEVIATION ProxyDropFull (known finding D11): the envelope is thrown away because
 \* the destination's queue is full.  Only a really full queue explains it: at least Cap
@@ -162,7 +183,10 @@ TDrop ==
 TRemove ==
   /\ Run("Hk") /\ E.k = "proxy.remove"
   /\ IF E.x \in DOMAIN reg
-       THEN (cancelled \/ Failed(cs[reg[E.x]])) = TRUE /\ reg' = Del(reg, E.x)
+       THEN LET c == cs[reg[E.x]] IN
+            IF c.att = "ing" /\ c.prev # 0 /\ Failed(cs[c.prev])
+              THEN UNCHANGED reg    \* the failed registration which an AddClient in progress is about to replace
+              ELSE (cancelled \/ Failed(c)) = TRUE /\ reg' = Del(reg, E.x)
        ELSE UNCHANGED reg      \* a second report of a connection that is gone already: nothing to forget
   /\ UNCHANGED <<pc, phase, cs, cur, cancelled, dropped, avars>>
 
@@ -187,7 +211,8 @@ TPeerRead ==
 \* route event that follows (same goroutine, before the next accept) only closes it.
 TPeerReadEarly ==
   /\ Run("PeerRead") /\ Has(E.n)
-  /\ cur.st = "route" /\ cur.target \in DOMAIN reg /\ reg[cur.target] = Idx(E.n)
+  /\ cur.st = "route" /\ cur.target \in DOMAIN reg
+  /\ (reg[cur.target] = Idx(E.n) \/ (cur.race /\ cur.dconn = Idx(E.n))) = TRUE
   /\ LET i == Idx(E.n)
          e == EnvOf(0) IN
        /\ cs[i].name = E.k /\ cs[i].st = "live"
@@ -217,10 +242,12 @@ TDial ==
 \* before the route hook of the envelope whose lookup missed
 TDialEarly ==
   /\ Run("Dial") /\ DialCands = {} /\ ~Has(E.n)
-  /\ cur.st = "route" /\ cur.target = E.k /\ E.k \notin DOMAIN reg
+  /\ cur.st = "route" /\ cur.target = E.k /\ cur.dconn = 0
+  /\ (E.k \notin DOMAIN reg \/ cur.race) = TRUE     \* (race: the name an overlapping AddClient has registered meanwhile)
   /\ cs' = Append(cs, NewConn(E.k, E.n, "dialing"))
-  /\ reg' = Put(reg, E.k, Len(cs) + 1)
-  /\ UNCHANGED <<pc, phase, cur, cancelled, dropped, avars>>
+  /\ reg' = IF E.k \notin DOMAIN reg THEN Put(reg, E.k, Len(cs) + 1) ELSE reg
+  /\ cur' = [cur EXCEPT !.dconn = Len(cs) + 1]
+  /\ UNCHANGED <<pc, phase, cancelled, dropped, avars>>
 TDialRet ==
   /\ Run("DialRet") /\ Has(E.n) /\ cs[Idx(E.n)].st = "dialing"
   /\ cs' = IF E.res = "ok" THEN [cs EXCEPT ![Idx(E.n)].st = "live"]
@@ -378,7 +405,7 @@ TEnd == /\ Is("End") /\ phase = "unwind" /\ phase' = "end" /\ UNCHANGED <<pc, rv
 \* Crash, Wedged and Leak lines have no action: a trace containing one is rejected.
 
 TraceNext ==
-  \/ TBegin \/ TAttach \/ TPeerWrite \/ TAccept \/ TRoute \/ TDrop \/ TRemove \/ TPeerRead \/ TPeerReadEarly \/ TRouteLate \/ TPWFail
+  \/ TBegin \/ TAttach \/ TAttachRet \/ TPeerWrite \/ TAccept \/ TRoute \/ TRouteRace \/ TDrop \/ TRemove \/ TPeerRead \/ TPeerReadEarly \/ TRouteLate \/ TPWFail
   \/ TDial \/ TDialEarly \/ TDialRet \/ TFault \/ TDisconnect \/ TCancel \/ TCensus
   \/ TRCall \/ TUCall \/ THStart \/ THRecvRet \/ THSend \/ THSendRet \/ THRet \/ TURet
   \/ TSOpenRet \/ TSSend \/ TSClose \/ TSRecvRet \/ TNote \/ TPend
